@@ -316,8 +316,18 @@ pub fn execute_digests(sc: &DScenario) -> (Vec<DFinding>, u64, bool) {
         // doing, and a replay (which is sequential) could not reproduce them.
         static ONE_AT_A_TIME: Mutex<()> = Mutex::new(());
         let guard = ONE_AT_A_TIME.lock().unwrap_or_else(|e| e.into_inner());
-        let (r, _) = sim_process(seed, None, || dump(&sc.gram.kind, &src));
+        let (r, _) = sim_process(seed, None, || {
+            let d = dump(&sc.gram.kind, &src);
+            // pins down the hash keys this simulated process ended up with (see engine_r::MapRun)
+            let probe: Vec<u32> = (0..16u32).collect::<std::collections::HashSet<u32>>().into_iter().collect();
+            (d, fnv(&probe.iter().flat_map(|x| x.to_le_bytes()).collect::<Vec<u8>>()))
+        });
         drop(guard);
+        let (r, probe) = match r {
+            SimOutcome::Ok((d, p)) => (SimOutcome::Ok(d), p),
+            SimOutcome::Panic(m) => (SimOutcome::Panic(m), 0),
+        };
+        lh = crate::rng::fnv_add(lh, &probe.to_le_bytes());
         let d = match r {
             SimOutcome::Ok(d) => d,
             SimOutcome::Panic(m) => {
